@@ -46,9 +46,12 @@ def Ns.set (ns : Ns) (k : Name) (v : Val) : Ns :=
 
 def Ns.erase (ns : Ns) (k : Name) : Ns := ns.filter (fun p => p.1 != k)
 
-/-- argparse's dest: first `--long` string without the dashes, else the first string without its
+/-- argparse's dest: an explicit `dest=`, else the first `--long` string without the dashes, else the first string without its
 dash; `-` inside becomes `_`. A positional's dest is its name. -/
 def destOf (o : OptSpec) : Name :=
+  match o.dest with
+  | some d => d
+  | none =>
   if o.kind.isPos then
     match o.strings with
     | s :: _ => s
@@ -65,6 +68,8 @@ def destOf (o : OptSpec) : Name :=
 def defaultOf (o : OptSpec) : Option Val :=
   match o.kind with
   | .flag => some (.bool false)
+  | .flagOff => some (.bool true)
+  | .const _ => some .none
   | .value => some .none
   | .count => some (.nat 0)
   | .optChoice _ d => some (.str d)
@@ -297,7 +302,7 @@ def mutexOk (o : OptSpec) (ps : PS) : Option PS :=
 
 def setv (o : OptSpec) (v : Val) (ps : PS) : PS := { ps with ns := ps.ns.set (destOf o) v }
 
-/-- an action without argument: `store_true`, `count`, help -/
+/-- an action without argument: `store_true`, `store_false`, `store_const`, `count`, help -/
 def applyNoArg (o : OptSpec) (ps : PS) : Except Fail PS :=
   match o.kind with
   | .help => .error (.exit 0)
@@ -305,6 +310,14 @@ def applyNoArg (o : OptSpec) (ps : PS) : Except Fail PS :=
     match mutexOk o ps with
     | Option.none => .error (.exit 2)
     | some ps => .ok (setv o (.bool true) ps)
+  | .flagOff =>
+    match mutexOk o ps with
+    | Option.none => .error (.exit 2)
+    | some ps => .ok (setv o (.bool false) ps)
+  | .const v =>
+    match mutexOk o ps with
+    | Option.none => .error (.exit 2)
+    | some ps => .ok (setv o (.str v) ps)
   | .count =>
     match mutexOk o ps with
     | Option.none => .error (.exit 2)
